@@ -222,3 +222,14 @@ PROPERTY_ASSUMPTIONS["C14"] = [
 M("C14", "c14_add_transaction_step", ["Mempool::add_transaction (async body)"], "pooled transaction with 1..=2 inputs x new transaction with 1..=2 inputs, every 59-byte key / amount / 64-byte signature / non-GT type symbolic", covers=4)
 M("C14", "c14_reorg_revalidates_pool", ["Blockchain::remove_block_transactions", "its retain closure"], "all paths of both bodies, callees uninterpreted")
 M("C14", "c14_delete_releases_reservations", ["Mempool::delete_transactions"], "pool holding one transaction with one input; the block confirms that transaction")
+
+# ============================================================================== C02
+PROPERTY_ASSUMPTIONS["C02"] = [
+    "per-transaction and per-block arithmetic only (engine M): conservation as an invariant over histories (reorganisations, rebroadcast after the window wraps, staking, payouts) needs add_block executions and is outside the claim",
+    "release-build semantics for `Iterator::sum::<u64>()` (wrapping; the dev build panics on the same inputs); amounts fully unconstrained u64 in c02_tx_no_mint; fees within the token supply and payloads below 4 GiB in c02_cv_fee_accounting",
+    "verify_signature, routing-path validation and utxoset lookups are free verdicts",
+]
+M("C02", "c02_tx_no_mint", ["Transaction::generate_total_fees", "Transaction::validate", "Transaction::validate_against_utxoset", "Slip::validate"],
+  "user types Normal / GoldenTicket / Vip; (inputs, outputs) in {(1,2),(2,2),(1,3)} (thorough up to 3 x 4); every amount and slip type symbolic; totals compared in 128-bit arithmetic", covers=3)
+M("C02", "c02_cv_fee_accounting", ["Block::generate_consensus_values (async body, the fee/size accounting loop up to the parent lookup)", "Transaction::get_serialized_size"],
+  "blocks of 1..=2 transactions, every type (9^n) and fee symbolic", covers=2)
